@@ -42,6 +42,13 @@ PRODS = [(f"attr.{n}", "({0})." + n, 1) for n in POOL] + [
     ("none", "None", 0), ("ellipsis", "...", 0), ("bytes", "b'x'", 0), ("cplx", "1j", 0), ("bigint", str(2 ** 70), 0),
     ("fstr", "f'{{({0})}}'", 1), ("starred", "f(*({0}))", 1), ("dstar", "f(**({0}))", 1), ("walrus", "(z := ({0}))", 1),
     ("set", "{{({0}), 1}}", 1), ("attrcall", "({0}).a.b.c(1).d", 1),
+    # a callable (a lambda, the bare name of a builtin the library knows) as a branch of a conditional / as an operand
+    ("ifexp.lam1", "(lambda y: y) if ({0}) else ({1})", 2), ("ifexp.lam2", "({0}) if ({1}) else (lambda y: y)", 2),
+    ("ifexp.fn1", "abs if ({0}) else ({1})", 2), ("ifexp.fn2", "({0}) if ({1}) else len", 2), ("ifexp.lamlam", "(lambda y: y) if ({0}) else (lambda z: z)", 1),
+    ("fnname", "f(abs, ({0}))", 1),
+    # string constants with runs of blanks / a real tab character (in keys, lookups, comparisons)
+    ("str.2sp", "'a  b'", 0), ("str.tab", "'x\ty\t\tz'", 0), ("dict.2sp", "{{'jet  pt': ({0})}}", 1), ("dictkey.2sp", "{{'a  b': ({0})}}['a  b']", 1),
+    ("eq.2sp", "({0}) == 'run  2'", 1), ("str.lead", "'  x '", 0),
 ]
 LEGAL_CONST = (str, int, float, bool, complex, bytes)
 
@@ -156,6 +163,8 @@ def _kind(n):
     if isinstance(n, ast.IfExp):
         a, b = _kind(n.body), _kind(n.orelse)
         return a if a == b else "other"
+    if isinstance(n, ast.Lambda) or (isinstance(n, ast.Name) and n.id in ("abs", "len")):
+        return f"callable#{id(n)}"  # the statement gives no rule for conditionals over callables: never equal to another kind
     if isinstance(n, ast.Tuple):
         return "tuple"
     if isinstance(n, ast.List):
@@ -293,9 +302,11 @@ class C10(Check):
             return res
         for op in ("Select", "SelectMany", "Where"):
             trig = permitted_refusals(want_lam.body, op)
-            for mode in ("str", "ast", "call"):
+            for mode in ("str", "ast", "call", "astnp"):
                 if mode == "call" and walrus:
                     continue
+                if mode == "astnp" and not (trig or len(src) < 40):
+                    continue  # hand-built ASTs (no position attributes): the refusal paths and the small expressions
                 canon = f"{op}|{mode}|{src}"
                 res["n"] += 1
                 res["nt"].append(canon)
@@ -305,6 +316,13 @@ class C10(Check):
                         s = getattr(ds, op)(lam_src)
                     elif mode == "ast":
                         s = getattr(ds, op)(copy.deepcopy(want_lam))
+                    elif mode == "astnp":
+                        bare = copy.deepcopy(want_lam)
+                        for n_ in ast.walk(bare):
+                            for at in ("lineno", "col_offset", "end_lineno", "end_col_offset"):
+                                if hasattr(n_, at):
+                                    delattr(n_, at)
+                        s = getattr(ds, op)(bare)
                     else:
                         _N[0] += 1
                         fn = f"<c10mod{_N[0]}>"
